@@ -28,6 +28,7 @@ and one layout on both sides (generated vs by-the-book tables are related by `la
 import Reamber.Lemmas.BMS
 import Reamber.Lemmas.BMSTime
 import Reamber.Lemmas.BMSAssemble
+import Reamber.Lemmas.BMSReseat
 import Reamber.Props.C10
 
 namespace Reamber.BMS
@@ -346,6 +347,78 @@ theorem gridCompatible_tail {g : List Rat} {a : BcSnap} {rest : List BcSnap} (h 
   cases rest with
   | nil => rfl
   | cons b r => exact (gridCompatible_cons h).2
+
+
+/-! ### the final `tm.reseat()` -/
+
+theorem wfB_of_bmsChange (cs : List BcSnap) (hall : cs.all bmsChange = true) :
+    wfB cs = true ∧ ∀ c ∈ cs, c.met = 4 := by
+  simp only [List.all_eq_true] at hall
+  constructor
+  · simp only [wfB, List.all_eq_true]
+    intro c hc
+    have h := hall c hc
+    simp only [bmsChange, Bool.and_eq_true, decide_eq_true_eq] at h
+    obtain ⟨⟨⟨⟨⟨h1, h2⟩, h3⟩, h4⟩, h5⟩, h6⟩ := h
+    simp only [wfOne, Bool.and_eq_true, decide_eq_true_eq, h1, h2, h3, h4, h5, h6, and_true, true_and]
+    norm_num
+  · intro c hc
+    exact (bmsChange_wf (hall c hc)).2
+
+/-- **The reader's tempo list lies in C11's domain.**  Every ascending list of reader-built 4/4 tempo changes that
+starts at measure 0 beat 0 and is grid-compatible on the shipped grid of 96 (¬D22) satisfies all of C11's
+hypotheses `Dom` for the shipped threshold 1/1000: the fractional part of every beat distance is 0 or at least
+1/96, so branch 2 of the reseat loop never fires (¬D16) and no gap is tiny (¬D16b). -/
+theorem bms_tempo_in_reseat_dom (cs : List BcSnap) (hall : cs.all bmsChange = true) (hs : sortedSnaps cs = true)
+    (h0 : firstAtZero cs = true) (hgc : gridCompatible (grid defaultMaxDiv) cs = true) :
+    Dom extendThreshold cs := by
+  obtain ⟨hwf, hmet⟩ := wfB_of_bmsChange cs hall
+  have h0' : firstZeroB cs = true := by
+    cases cs with
+    | nil => simp [firstAtZero] at h0
+    | cons c r => simpa [firstZeroB, firstAtZero] using h0
+  exact dom_of_gridCompatible (N := defaultMaxDiv) (by decide) extendThreshold
+    (by unfold extendThreshold defaultMaxDiv; norm_num) (by unfold extendThreshold; norm_num) cs hwf hmet hs h0' hgc
+
+/-- **`_read_notes` after the timed notes: the re-derivation and `tm.reseat()` succeed.**  With the tempo list `cs`
+of `bms_times` and the timing map `tm` built from it: `bpm_changes_offset_to_snap` gives `cs` back (C10's
+`bcsOfBco_rederive`), `from_bpm_changes_snap(0, cs)` with reseating succeeds (C11's `Dom`, by
+`bms_tempo_in_reseat_dom`), and the stored tempo list `tm2` contains every change of `cs` at its own millisecond
+position, in order, first on first, last on last, with at most one inserted point per interval. -/
+theorem finishRead_ok (st : St) (hits : List HitOut) (holds : List HoldOut) (tm : List BcOff) (cs : List BcSnap)
+    (ht : timedNotes defaultGrid st = .ok (hits, holds, tm, cs))
+    (hall : cs.all bmsChange = true) (hs : sortedSnaps cs = true)
+    (h0 : firstAtZero cs = true) (hgc : gridCompatible (grid defaultMaxDiv) cs = true)
+    (htm : fromBcSnap 0 cs false = .ok tm) :
+    ∃ tm2, finishRead defaultGrid st = .ok (hits, holds, tm2, cs) ∧
+      interleaveB 0 false (inPts 0 cs) (outPtsOff tm2) = true := by
+  have hwf : wfChanges cs = true := by
+    simp only [wfChanges, List.all_eq_true] at hall ⊢
+    exact fun c hc => (bmsChange_wf (hall c hc)).1
+  have hm : metronomeOk cs = true :=
+    metronomeOk_of_const cs (fun c hc => (bmsChange_wf (List.all_eq_true.mp hall c hc)).2)
+  have hgc' : gridCompatible defaultGrid.toList cs = true := by simpa [defaultGrid] using hgc
+  have hre := bcsOfBco_rederive (g := defaultGrid) (gridOK_grid (by decide)) 0 cs hwf hs h0 hgc' hm
+  have hdom := bms_tempo_in_reseat_dom cs hall hs h0 hgc
+  obtain ⟨tm2, h2, hint⟩ := fromBcSnap_reseat_keeps_times 0 cs hdom
+  have htmOf : tm = tmOf 0 cs := by
+    have h1 := fromBcSnapNoReseat_eq 0 cs hwf hs h0
+    unfold fromBcSnap at htm
+    rw [sortBcSnap_eq_self hs] at htm
+    cases cs with
+    | nil => simp [firstAtZero] at h0
+    | cons c rest =>
+      simp only [firstAtZero, Bool.and_eq_true, decide_eq_true_eq] at h0
+      simp [h0.1, h0.2, h1] at htm
+      exact htm.symm
+  subst htmOf
+  refine ⟨tm2, ?_, hint⟩
+  have hhead : (((tmOf 0 cs).head?.map (·.offset)).getD 0) = 0 := by
+    cases cs with
+    | nil => simp [firstAtZero] at h0
+    | cons c rest => exact tmOf_head_offset 0 c rest
+  unfold finishRead
+  simp only [ht, hre, liftT, bind, Except.bind, hhead, h2]
 
 /-- the whole reader in terms of its parts -/
 theorem read_of_parts (g : Array Rat) (lay : Layout) (lines : List Bytes) (doc : Doc) (hdr : Header) (st : St)
